@@ -8,6 +8,7 @@ import (
 	"fmt"
 	"os"
 
+	"verifharness/c06"
 	"verifharness/core"
 	"verifharness/netsim"
 )
@@ -93,6 +94,14 @@ func Main() {
 			continue
 		}
 		r.Cases("plan:"+plan.Name, n, core.Opts{Procs: 16, StallSec: 600, HangIsViolation: true}, func(c *core.Case) { netsim.CrashCase(c, plan, c.I) })
+	}
+	if os.Getenv("VERIF_C05_PLAN") == "" {
+		// the block store and application state of a long-running node with snapshots (c06's long chains with a recorded
+		// replica): crash images after an early clean stop, inside multi-batch snapshot merges and at arbitrary units; the
+		// node must start on each image and continue like the replicas that never crashed
+		r.Assume("chain-crash: the crash-restarted node is given the consensus state the never-crashed replicas held at the head it comes up with (recovery of the consensus state itself is what the plan:* groups enumerate)")
+		r.Cases("chain-crash", r.N(2, 8), core.Opts{Procs: r.N(2, 8), Workers: 1, StallSec: 900}, c06.ChainCrashCase)
+		r.Floor("restarts_from_crash_images", 3)
 	}
 	r.Extra("crash_points_enumerated", totalPoints)
 	r.Exhaustive(exhaustive)
